@@ -248,7 +248,8 @@ func (m *Monitor) after(o Op, p *preState, res perfResult) {
 		lhs := new(big.Int).Add(m.holdings(ctx, t), m.inflightAll(ctx, t))
 		rhs := new(big.Int).Add(m.initHold[t], m.dep[t])
 		rhs.Sub(rhs, m.exe[t])
-		if lhs.Cmp(rhs) != 0 {
+		if lhs.Cmp(rhs) != 0 && !m.seen[fmt.Sprint("cons", t)] {
+			m.seen[fmt.Sprint("cons", t)] = true // report the step that broke it, not every later one
 			m.fail("C04:conservation:"+tk.Kind.String()+":"+o.K,
 				fmt.Sprintf("conservation broken for %s (%s) after %s: holdings+in-flight=%s, initial+deposited-executed=%s", tk.Symbol, tk.Kind, o.Coq(), lhs, rhs))
 		}
